@@ -43,7 +43,11 @@ def assemble(prog: primgen.Program, version: int, tag: str = 'c02') -> Tuple[str
         return 'rejected', exc, None
     except BaseException as exc:  # noqa: B902
         return 'raw', exc, None
-    return 'ok', Reader(out), load_debugging_labels(dbg)
+    try:
+        reader = Reader(out)
+    except flipjump.FlipJumpException as exc:
+        return 'unloadable', exc, None   # the assembler accepted the program and wrote an image its own reader refuses
+    return 'ok', reader, load_debugging_labels(dbg)
 
 
 def judge(prog: primgen.Program, version: int, counters: Dict[str, Any]) -> List[Tuple[str, str]]:
@@ -58,6 +62,9 @@ def judge(prog: primgen.Program, version: int, counters: Dict[str, Any]) -> List
     out: List[Tuple[str, str]] = []
     if status == 'raw':
         return [(f'raw-exception/{type(reader).__name__}', f'{reader!r}')]
+    if status == 'unloadable':
+        return [('assembled-image-refused-by-reader', f'assembly succeeded but the written .fjm does not load: {str(reader)[:200]}'
+                                                       + (f' (the layout is impossible: {model.impossible})' if model.impossible else ''))]
     if model.impossible:
         counters['impossible_layouts'] = counters.get('impossible_layouts', 0) + 1
         if status == 'ok':
